@@ -170,13 +170,16 @@ func (r Ref) Accepts(text string) (bool, string) {
 // AcceptsFile is Accepts for a file on disk.
 func (r Ref) AcceptsFile(path string, full bool) (bool, string) {
 	if r.Timeout == 0 {
-		r.Timeout = 5 * time.Minute // shipped / built files: no hang is known, large profiles take seconds
+		r.Timeout = 90 * time.Second // shipped / built files: no hang is known, large profiles take seconds
 	}
 	extra := []string{"-d"}
 	if full {
 		extra = nil // -Q alone: everything (rule merging, DFA construction) except the kernel load
 	}
 	so, se, err := r.runFile(path, extra...)
+	if err == ErrRefTimeout {
+		so, se, err = r.runFile(path, extra...) // once more: the machine may have been busy
+	}
 	if err != nil {
 		var ee *exec.ExitError
 		if errors.As(err, &ee) {
